@@ -63,6 +63,8 @@ package tree
 //@   props C08
 //@   requires t != nil
 //@   ensures[leaf] result1 == nil ==> result0 == desc(rhtL(t), rhtR(t), root, index, 0)
+//@   ensures[not-found-means-a-path-node-is-not-stored] (result1 != nil && isErr(result1, db.ErrNotFound)) ==> exists(h, 1, 33, !rhtHas(t)[desc(rhtL(t), rhtR(t), root, index, h)])
+//@   ensures[never-the-syncers-inconsistency-error] plainErr(result1)
 //@   loop 0 unroll 32
 
 //@ func (t *Tree) getSiblings
